@@ -7,6 +7,9 @@ verus! {
 global size_of usize == 8;
 
 //@include prelude/inc_pwl_core.rs
+//@include prelude/tol_spec.rs
+//@include prelude/wit_core_spec.rs
+//@include prelude/wit_grow_spec.rs
 
 // 2^i facts for the label computation (64-bit usize)
 pub proof fn lemma_shl_facts(i: usize)
@@ -144,6 +147,8 @@ impl<const K: usize> AffTree<K> {
         all_leaves_composed(old(self).a(), final(self).a(), aff_func),
         final(self).tree.root == old(self).tree.root, final(self).in_dim == old(self).in_dim,
         all_leaves_composed(old(self).a(), final(self).a(), aff_func) ==> final(self).tree.wf(),
+        // C05: cached states are kept and only terminal functions change, so witnesses that satisfied their path conditions up to 1e-8 still do
+        wit_inv(old(self).a(), old(self).a()) ==> wit_inv(final(self).a(), final(self).a()),
         // semantically: first this tree, then aff_func
         all_leaves_composed(old(self).a(), final(self).a(), aff_func) ==>
             forall|h: Map<usize, nat>, idx: usize, x: V| #![trigger tree_fn(final(self).a(), h, idx, x)]
@@ -208,6 +213,10 @@ impl<const K: usize> AffTree<K> {
                 assert(__v@.contains(i));
                 let j = choose|j: int| 0 <= j < __v@.len() && __v@[j] == i;
                 assert(leaf_done(old(self).a(), self.a(), __v@[j], aff_func));
+            }
+            if wit_inv(old(self).a(), old(self).a()) {
+                assert(all_leaves_composed(old(self).a(), self.a(), aff_func));
+                lemma_wit_leaves(old(self).a(), self.a(), aff_func, old(self).tree.root);
             }
         }
 //@end
